@@ -9,6 +9,8 @@ import (
 	"github.com/eclipse/paho.mqtt.golang/packets"
 	"github.com/emitter-io/emitter/internal/event"
 	"github.com/emitter-io/emitter/internal/message"
+	"github.com/emitter-io/emitter/internal/verifyield"
+	"github.com/weaveworks/mesh"
 	"github.com/emitter-io/emitter/verifsim/kernel"
 	"github.com/emitter-io/emitter/verifsim/model"
 	"github.com/emitter-io/emitter/verifsim/mqttc"
@@ -20,7 +22,7 @@ import (
 func init() {
 	kernel.Register(&kernel.World{
 		Property: "C05", Bubble: true, Run: runC05, RunsPerProc: 40, RunTimeout: 300 * time.Second,
-		Rule: "one run = 2-4 real brokers on the simulated mesh (full mesh or line), 1-2 clients per broker; tape-generated subscribe / unsubscribe / abrupt disconnect + reconnect bursts on channels {a/, b/, a/b/, b/a/}; every transport event (which link sender runs, which in-flight message is delivered, GC notifications), every clock advance (us..31 s: peer send queues, emitter's 5 s update, periodic full-state gossip) and, by campaign (A schedules only, B + link down / partition / heal, C + broker crash and restart on a crash image, clean stop and restart) every fault is a tape decision. At quiescence (faults stopped, links healed by emitter's own Join loop, 150 simulated seconds): no Gossiper callback panicked; every broker's trie holds the remote entry (filter, peer P) iff P has a live local subscriber with that filter; one probe publish per (broker, channel) reaches every matching subscriber on every broker exactly once and nobody else. non-trivial = >= 1 remote route expected at quiescence; distinct = distinct canonical logs",
+		Rule: "one run = 2-4 real brokers on the simulated mesh (full mesh or line), 1-2 clients per broker; tape-generated subscribe / unsubscribe / abrupt disconnect + reconnect bursts on channels {a/, b/, a/b/, b/a/}; every transport event (which link sender runs, which in-flight message is delivered, GC notifications), every clock advance (us..31 s: peer send queues, emitter's 5 s update, periodic full-state gossip) and, by campaign (A schedules only, B + link down / partition / heal, C + broker crash and restart on a crash image, clean stop and restart, D schedules + two gossip messages delivered to one broker by two goroutines interleaved at the yield points of Swarm.merge) every fault is a tape decision. At quiescence (faults stopped, links healed by emitter's own Join loop, 150 simulated seconds): no Gossiper callback panicked; every broker's trie holds the remote entry (filter, peer P) iff P has a live local subscriber with that filter; one probe publish per (broker, channel) reaches every matching subscriber on every broker exactly once and nobody else. non-trivial = >= 1 remote route expected at quiescence; distinct = distinct canonical logs",
 		Real:  []string{"broker.Service x N", "cluster.Swarm (Notify, merge, onPeerOnline/Offline, update, Join)", "cluster.Peer (counters, send queue)", "event.State / crdt (durable)", "pubsub, message.Trie", "Service.onPeerMessage"},
 		Stub:  []string{"weaveworks/mesh (simmesh transcription: per-link senders, broadcast tree, relays, periodic gossip, full state on link-up, GC)", "client sockets (simnet)", "clock (synctest)"},
 		Assumptions: []string{"Gossiper callbacks run one at a time (the real mesh runs one receive loop per link)", "topology knowledge in the mesh is immediate (its own topology gossip is not simulated)", "a live mesh link is a TCP stream: FIFO, lossless; loss only when a link or node goes down", "a broker's own clock strictly increases between two client operations (no timestamp ties inside one broker; ties and skew between replicas are explored by C04/C13)"},
@@ -69,8 +71,20 @@ func runC05(c *kernel.Ctx) {
 	c.SleepToEpoch()
 	campaign := c.Params["campaign"]
 	if campaign == "" {
-		campaign = []string{"A", "A", "B", "B", "C"}[t.Choose(5)]
+		campaign = []string{"A", "A", "B", "B", "C", "D"}[t.Choose(6)]
 	}
+	// campaign D: schedules only, plus gossip arriving on two links of one broker
+	// at the same time (the mesh runs one receive goroutine per link): the two
+	// Gossiper callbacks park at the yield points of Swarm.merge and the tape
+	// interleaves them
+	// since the repair that serialises Swarm.merge the points inside it lie under a
+	// mutex: only its entry (before the lock) can be parked at
+	baton := &kernel.Baton{OnlySites: []string{"cluster.Swarm.merge:entry"}}
+	if c.Params["parkinside"] != "" {
+		baton.OnlySites = nil // for demonstrating the race on a tree without the lock
+	}
+	verifyield.Hook = baton.Hook
+	defer func() { baton.ReleaseAll(); verifyield.Hook = nil }()
 	n := t.Range(2, 4)
 	line := n >= 3 && t.Chance(1, 3)
 	lic := world.Licenses[2]
@@ -154,6 +168,8 @@ func runC05(c *kernel.Ctx) {
 			if t.Chance(1, 2) {
 				w.attach(cc.broker)
 			}
+		case k < 60 && campaign == "D":
+			w.concurrentDeliver(baton)
 		case k < 75:
 			cl.NetStep()
 		case k < 90:
@@ -207,6 +223,64 @@ func runC05(c *kernel.Ctx) {
 	w.checkDelivery()
 }
 
+// concurrentDeliver lets two in-flight gossip messages for the same broker be
+// delivered by two goroutines at once, interleaved at the yield points of merge.
+func (w *c05World) concurrentDeliver(baton *kernel.Baton) {
+	c, cl, t := w.c, w.cl, w.c.Tape
+	cl.Net.Canonicalise()
+	byDst := map[mesh.PeerName][]mesh.Event{}
+	var dsts []mesh.PeerName
+	for _, e := range cl.Net.Enabled() {
+		if e.Kind == "deliver" {
+			if len(byDst[e.B]) == 0 {
+				dsts = append(dsts, e.B)
+			}
+			byDst[e.B] = append(byDst[e.B], e)
+		}
+	}
+	var cands []mesh.PeerName
+	for _, d := range dsts {
+		if len(byDst[d]) >= 2 {
+			cands = append(cands, d)
+		}
+	}
+	if len(cands) == 0 {
+		cl.NetStep()
+		return
+	}
+	d := cands[t.Choose(len(cands))]
+	evs := byDst[d]
+	i := t.Choose(len(evs))
+	j := t.Choose(len(evs) - 1)
+	if j >= i {
+		j++
+	}
+	c.Logf("net concurrent deliver %s and %s", evs[i], evs[j])
+	c.Fault("concurrent-merge")
+	baton.SetActive(true)
+	done := make(chan struct{}, 2)
+	for _, e := range []mesh.Event{evs[i], evs[j]} {
+		e := e
+		go func() {
+			cl.Net.Do(e)
+			done <- struct{}{}
+		}()
+		world.Settle() // the first task parks (or finishes) before the second is created: stable creation order
+	}
+	for n := 0; n < 200; n++ {
+		world.Settle()
+		pk := baton.Parked()
+		if len(pk) == 0 {
+			break
+		}
+		p := pk[t.Choose(len(pk))]
+		c.Logf("  run merge task@%s (%d parked)", p.Site, len(pk))
+		baton.Release(p)
+	}
+	baton.ReleaseAll()
+	world.Settle()
+}
+
 // keepalive: idle clients ping so that the broker's 120 s read deadline never ends them.
 func (w *c05World) keepalive() {
 	for _, cc := range w.live() {
@@ -221,7 +295,7 @@ func (w *c05World) keepalive() {
 func (w *c05World) fault(campaign string, line bool) {
 	c, cl, t := w.c, w.cl, w.c.Tape
 	n := len(cl.Brokers)
-	if campaign == "A" {
+	if campaign == "A" || campaign == "D" {
 		cl.NetStep()
 		return
 	}
